@@ -112,12 +112,25 @@ def tok(scalar):
     return "%s:%s" % (c[0], "" if len(c) < 2 else c[-1])
 
 
+def own_items(node):
+    """(key, value) pairs a mapping holds itself; keys it merely inherits through a YAML
+    merge key (<<) are not its own (they belong to the merged, anchored mapping)."""
+    if getattr(node, "merge", None) and hasattr(node, "non_merged_items"):
+        return list(node.non_merged_items())
+    return list(node.items())
+
+
+def merge_names(node):
+    """Anchor names of the mappings merged (<<) into this one, in order ([] when none)."""
+    return [anchor_of(m) or "?" for _, m in (getattr(node, "merge", None) or [])]
+
+
 def children(node):
     """(position element, child) of a real container; () for scalars."""
     if _is_set(node):
         return [(("m", tok(m)), m) for m in node]
     if isinstance(node, dict):
-        return [(("k", tok(k)), v) for k, v in node.items()]
+        return [(("k", tok(k)), v) for k, v in own_items(node)]
     if isinstance(node, (list, tuple)):
         return [(("i", i), v) for i, v in enumerate(node)]
     return []
@@ -128,7 +141,10 @@ def canon(node):
     if _is_set(node):
         return ["set", sorted((scalar_canon(m) for m in node), key=json.dumps)]
     if isinstance(node, dict):
-        return ["map", [[scalar_canon(k), canon(v)] for k, v in node.items()]]
+        pairs = [[scalar_canon(k), canon(v)] for k, v in own_items(node)]
+        if merge_names(node):   # the merge itself is data of this mapping; what it inherits is not
+            pairs.append([["merge", "<<"], ["seq", [["str", "*" + n] for n in merge_names(node)]]])
+        return ["map", pairs]
     if isinstance(node, (list, tuple)):
         return ["seq", [canon(v) for v in node]]
     return scalar_canon(node)
@@ -212,6 +228,9 @@ def _leaf_positions(doc, cpaths, nc):
             raise Unresolvable("parentref-outside-sequence")
         el = ("i", ref)
     hit = [c for e, c in children(parent) if e == el]
+    if not hit and getattr(parent, "merge", None) and isinstance(parent, dict) and ref in parent:
+        # deleting/setting "it" in this mapping has no plain-data meaning
+        raise Unresolvable("key-inherited-through-a-merge-key")
     if not hit:
         raise Unresolvable("parentref-not-in-parent/" + ("set" if _is_set(parent) else
                                                           "map" if isinstance(parent, dict) else "seq"))
@@ -258,7 +277,11 @@ def flatten_results(doc, results):
                     ppaths = cpaths.get(id(nc.parent))
                     if not ppaths:
                         raise Unresolvable("parent-not-in-document")
-                    idx = nc.parentref + i
+                    anc = getattr(inner, "ancestry", None) or []
+                    if anc and anc[-1][0] is nc.parent and isinstance(anc[-1][1], int):
+                        idx = anc[-1][1]            # the element's own index as recorded in its ancestry
+                    else:
+                        idx = nc.parentref + i      # all elements carry the slice's first index
                     if idx < 0:
                         idx += len(nc.parent)
                     if not 0 <= idx < len(nc.parent):
@@ -330,7 +353,10 @@ def model_of(doc):
         if _is_set(node):
             return ["set", [[tok(m), scalar_canon(m)] for m in node]]
         if isinstance(node, dict):
-            return ["map", [[tok(k), scalar_canon(k), rec(v)] for k, v in node.items()]]
+            ents = [[tok(k), scalar_canon(k), rec(v)] for k, v in own_items(node)]
+            if merge_names(node):
+                ents.append(["merge:<<", ["merge", "<<"], Cell(["seq", [["str", "*" + n] for n in merge_names(node)]])])
+            return ["map", ents]
         if isinstance(node, (list, tuple)):
             return ["seq", [rec(v) for v in node]]
         a = anchor_of(node)
@@ -486,11 +512,6 @@ def skeleton(c):
     return c[0][0]
 
 
-def brief(c, limit=200):
-    s = json.dumps(c, separators=(",", ":"))
-    return s if len(s) <= limit else s[:limit] + "..."
-
-
 def pretty(c):
     """canonical data -> compact readable text."""
     if c[0] == "map":
@@ -530,9 +551,10 @@ def classify_delete(before, after, expected, positions, flags, exc, matched_node
     if exc is not None and not is_ype(exc):
         where = repo_frame(exc)
         name = type(exc).__name__
-        line, loc = crash_site(exc)
+        _line, loc = crash_site(exc)
         node = loc.get("node")
-        if name == "IndexError" and where.endswith(":_delete_nodes") and "node[0]" in (line or ""):
+        # `x[0]` of an empty list says "list index out of range"; `del x[i]` says "list assignment index ..."
+        if name == "IndexError" and where.endswith(":_delete_nodes") and str(exc) == "list index out of range":
             if type(node) is list:      # a python list of results, not a document node
                 if "empty-slice" in flags:
                     out.append(("index-error-empty-slice-result",
@@ -543,11 +565,15 @@ def classify_delete(before, after, expected, positions, flags, exc, matched_node
             else:
                 out.append(("index-error-empty-list-target",
                             "deleting a matched list that is (or has become) empty raises IndexError instead of removing it"))
-        elif (name == "IndexError" and where.endswith(":_delete_nodes") and "del parent[parentref]" in (line or "")
+        elif (name == "IndexError" and where.endswith(":_delete_nodes") and "assignment" in str(exc)
+              and isinstance(loc.get("parentref"), int) and loc.get("parentref") < 0 and "negative-slice" in flags):
+            out.append(("negative-slice-start-deletes-wrong-elements",
+                        "every element of a slice with a negative start is deleted through that same raw negative index"))
+        elif (name == "IndexError" and where.endswith(":_delete_nodes") and "assignment" in str(exc)
               and isinstance(loc.get("parentref"), int) and loc.get("parentref") < 0):
             out.append(("index-error-negative-index-after-list-shrank",
                         "a negative index is applied to a sequence that an earlier deletion of the same run has shortened"))
-        elif name == "KeyError" and where.endswith(":_delete_nodes") and "discard" in (line or ""):
+        elif name == "KeyError" and where.endswith(":_delete_nodes") and _is_set(loc.get("parent")):
             out.append(("key-error-set-member-matched-twice",
                         "a set member matched more than once is discarded twice; the second discard raises KeyError"))
         else:
@@ -694,7 +720,7 @@ HAND_DOCS = [
     "{a: [1, 2, 3], b: [1, 2, 3]}", "[{a: 1}, {a: 2}, {b: 1}]", "{a: {a: {a: 1}}}",
     "{a: &x 1, b: *x}", "{a: &x 1, b: *x, l: [*x, 2]}", "[&x 1, *x, 2]", "[&x a, *x, *x]",
     "{s: !!set {a, b}, k: 1}", "[!!set {a, b}, a]",
-    "{d: &x {k: 1}, m: {<<: *x, x: 5}}", "{d: &d {k: 1}, m: {<<: *d, d: 5, e: 6}}",
+    "{a: &b {a: 1}, b: {<<: *b, b: 5}}", "{a: &a {c: 1}, b: {<<: *a, a: 5, b: 6}}",
 ]
 
 ROOT_PATHS = ["/", ""]
@@ -703,7 +729,7 @@ ROOT_PATHS = ["/", ""]
 def path_vocab(tier):
     segs = [("key", "a"), ("key", "b")]
     segs += [("idx", i) for i in ((-2, -1, 0, 1, 2) if tier == "quick" else (-3, -2, -1, 0, 1, 2, 3))]
-    segs += [("slice", a, b) for a, b in ((0, 1), (0, 2), (1, 3), (1, 1), (-2, 0), (0, -1))]
+    segs += [("slice", a, b) for a, b in ((0, 1), (0, 2), (1, 3), (1, 1), (-2, 0), (0, -1), (-2, 9))]
     segs += [("search", False, ".", ">", "0"), ("search", False, ".", "=", "1"), ("search", True, ".", "=", "1"),
              ("search", False, ".", "=", "a"), ("search", False, "a", "=", "1")]
     segs += [("all",), ("trav",)]
@@ -747,10 +773,18 @@ def _render_coll(colls, prefix):
     return s
 
 
-def tree_docs(tier):
+def _depth(t):
+    if isinstance(t, dict):
+        return 1 + max([_depth(v) for v in t.values()], default=0)
+    if isinstance(t, list):
+        return 1 + max([_depth(v) for v in t], default=0)
+    return 0
+
+
+def tree_docs(tier, min_depth=0):
     n = 4 if tier == "quick" else 5
     ts = gen.trees(n, 3, keys=("a", "b"), scalars=(0, 1, "a"), sets=False)
-    return [gen.to_yaml(t) for t in ts if isinstance(t, (dict, list))]
+    return [gen.to_yaml(t) for t in ts if isinstance(t, (dict, list)) and _depth(t) >= min_depth]
 
 
 def random_cases(seed, count, paths):
@@ -786,7 +820,7 @@ def _chunk(groups):
                     col.case()
                     col.out_of_scope(r["oos"])
                     continue
-                col.case(r["sig"], r["sample"] if (r["sig"] and r["sig"][3] >= 2 and r["status"] == "ok") else None)
+                col.case(r["sig"], r["sample"] if (r["sig"] and r["sig"][3] >= 2 and not r["sig"][5] and r["status"] == "ok") else None)
                 for key, what, obs, exp in r["witnesses"]:
                     col.witness(key, what, {"kind": "delete", "yaml": text, "path": path, "api": api}, obs, exp)
     return col.result(internal=True)
@@ -798,15 +832,19 @@ def plan(tier, seed):
     bounds = {"tree_max_nodes": 4 if tier == "quick" else 5, "tree_max_depth": 3, "tree_keys": ["a", "b"],
               "tree_scalars": [0, 1, "a"], "tree_docs": len(groups), "paths_le2_segments": len(paths2)}
     hand_paths = paths2
+    groups += [(d, paths2, ["delete_nodes", "gathered"]) for d in HAND_DOCS]
     if tier != "quick":
         paths3 = all_paths("thorough")
-        small = tree_docs("quick")
-        groups += [(d, [p for p in paths3 if p not in set(paths2)], ["delete_nodes"]) for d in small]
+        seen2 = set(paths2)
+        only3 = [p for p in paths3 if p not in seen2]
+        deep = tree_docs("quick", min_depth=3)
+        groups += [(d, only3, ["delete_nodes"]) for d in deep]
+        groups += [(d, only3, ["delete_nodes"]) for d in HAND_DOCS]
         hand_paths = paths3
-        bounds.update({"paths_le3_segments": len(paths3), "tree_docs_for_3_segment_paths": len(small)})
-    groups += [(d, hand_paths, ["delete_nodes", "gathered"]) for d in HAND_DOCS]
+        bounds.update({"paths_le3_segments": len(paths3),
+                       "docs_for_3_segment_paths": "%d tree documents of <= 4 nodes and depth 3, and the hand-written ones" % len(deep)})
     n_exh = sum(len(p) * len(a) for _, p, a in groups)
-    n_rand = 10000 if tier == "quick" else 300000
+    n_rand = 10000 if tier == "quick" else 150000
     groups += [(d, [p], [a]) for d, p, a in random_cases(seed, n_rand, hand_paths)]
     bounds.update({"hand_docs": len(HAND_DOCS), "exhaustive_cases": n_exh, "random_cases": n_rand, "seed": seed,
                    "collector_paths": "(x)+(y) over %d atoms, (x)+(x)+(x), (*)-(x), (/)+(a), optional 1-segment prefix" % len(COLL_ATOMS),
@@ -832,7 +870,7 @@ def run(tier="quick", seed=0, jobs=None):
             "and over %d hand-written documents (empty containers, anchors/aliases, sets, merge keys); "
             "%d seeded random document/path pairs beyond"
             % (bounds["tree_max_nodes"],
-               "" if tier == "quick" else "; <= 4-node documents x all 3-segment paths",
+               "" if tier == "quick" else "; depth-3 documents of <= 4 nodes and the hand-written ones x all 3-segment paths",
                len(HAND_DOCS), bounds["random_cases"]))
     return col.result(rule=rule, exhaustive=True, bounds=bounds)
 
